@@ -138,7 +138,10 @@ def make_scenario(scripts, restart_limit, extra_mode, max_controls):
                 rec["snapshot"] = snapshot()
                 rec["seq"] = len(log)
                 log.append(("control", kind, loop.time(), bool(rec.get("final"))))
-                await (actor.stop() if kind == "stop" else actor.wait())
+                if rec.get("final"):
+                    await actor.__aexit__(None, None, None)  # the final stop is the exit of an `async with actor:` block
+                else:
+                    await (actor.stop() if kind == "stop" else actor.wait())
 
             def do(kind):
                 budget[0] -= 1
